@@ -7,6 +7,15 @@ Extracted (fail closed on any other shape):
   * load_cropped_and_aligned_image: is it decorated with lru_cache, its maxsize, its parameter list
     (= the memoisation key)                                             -> src_memoised, src_memo_maxsize, src_memo_key
   * load_image: the tuple of separators tried for .txt/.data, in order  -> src_delims
+  * what could keep loaded content between two calls, in pyxel/inputs/loader.py, pyxel/util/image.py and the two
+    loading models: caching decorators on any function, module-level containers that a function mutates
+    (subscript store / del, mutating method call, `global`), mutable default arguments, attributes stored on
+    functions                                                            -> src_loader_state (names; [] = none)
+  * the call sites of the two loading models (photon_collection.load_image, charge_generation.load_charge): what
+    each passes to load_cropped_and_aligned_image as shape / filename / position_x / position_y / align /
+    allow_smaller_array (names followed through single assignments and the tuple unpacking of `position`), the
+    scaling factor as exponents of (detector.time_step, time_scale, multiplier), and whether the scaled array is
+    added to the bucket                                                  -> src_photon_call, src_charge_call
 """
 from __future__ import annotations
 
@@ -52,7 +61,7 @@ def expr(node: ast.AST) -> str:
         if isinstance(node.op, ast.FloorDiv):
             return f"(Z.div {expr(node.left)} {_posint(node.right)})"
         fail(node, "operator not accepted in an alignment expression")
-    if (isinstance(node, ast.Call) and isinstance(node.func, ast.Name) and node.func.id == "int"
+    if (isinstance(node, ast.Call) and ast.unparse(node.func) in ("int", "math.trunc", "trunc")
             and len(node.args) == 1 and not node.keywords):
         a = node.args[0]
         if isinstance(a, ast.BinOp) and isinstance(a.op, ast.Div):
@@ -86,8 +95,10 @@ def _align(tree) -> dict[str, tuple[str, str]]:
     if sorted(names) != sorted(list(VARS) + ["alignment"]):
         fail(fn, "_set_relative_position parameters")
     body = body_no_doc(fn)
+    if len(body) in (1, 2) and isinstance(body[0], ast.Match):
+        return _align_match(fn, body)
     if len(body) != 1 or not isinstance(body[0], ast.If):
-        fail(fn, "_set_relative_position body must be one if/elif chain")
+        fail(fn, "_set_relative_position body must be one if/elif chain or one match statement")
     node, res = body[0], {}
     while True:
         t = node.test
@@ -112,6 +123,38 @@ def _align(tree) -> dict[str, tuple[str, str]]:
         fail(node, "chain must end with `else: raise ...`")
     if sorted(res) != sorted(MEMBERS.values()):
         fail(fn, "every member needs a branch")
+    return res
+
+
+def _align_match(fn, body) -> dict[str, tuple[str, str]]:
+    """`match alignment: case Alignment.<m>: return <y>, <x> ... [case _: raise ...]` (+ an optional final raise)."""
+    m = body[0]
+    if not (isinstance(m.subject, ast.Name) and m.subject.id == "alignment"):
+        fail(m, "match subject must be `alignment`")
+    if len(body) == 2 and not isinstance(body[1], ast.Raise):
+        fail(body[1], "only a `raise` may follow the match statement")
+    res = {}
+    for case in m.cases:
+        pat = case.pattern
+        if case.guard is not None:
+            fail(case.pattern, "guarded case not accepted")
+        if isinstance(pat, ast.MatchAs) and pat.pattern is None:          # case _:
+            if len(case.body) != 1 or not isinstance(case.body[0], ast.Raise):
+                fail(pat, "the default case must raise")
+            continue
+        if not (isinstance(pat, ast.MatchValue) and isinstance(pat.value, ast.Attribute)
+                and isinstance(pat.value.value, ast.Name) and pat.value.value.id == "Alignment"):
+            fail(pat, "case pattern must be `Alignment.<member>`")
+        mem = pat.value.attr
+        if mem not in MEMBERS or MEMBERS[mem] in res:
+            fail(pat, "unknown or repeated member")
+        if len(case.body) != 1 or not isinstance(case.body[0], ast.Return) \
+                or not isinstance(case.body[0].value, ast.Tuple) or len(case.body[0].value.elts) != 2:
+            fail(pat, "case must be a single `return <y>, <x>`")
+        y, x = case.body[0].value.elts
+        res[MEMBERS[mem]] = (expr(y), expr(x))
+    if sorted(res) != sorted(MEMBERS.values()):
+        fail(fn, "every member needs a case")
     return res
 
 
@@ -156,10 +199,19 @@ def _delims(repo: Path) -> list[str]:
     if len(loops) != 1:
         fail(fn, "load_image must contain exactly one `for sep in (...)` loop")
     lp = loops[0]
-    if not (isinstance(lp.target, ast.Name) and isinstance(lp.iter, (ast.Tuple, ast.List))):
+    it = lp.iter
+    if isinstance(it, ast.Name):             # a module-level constant tuple, bound once
+        binds = [st for st in tree.body
+                 if (isinstance(st, ast.Assign) and any(isinstance(t, ast.Name) and t.id == it.id for t in st.targets))
+                 or (isinstance(st, ast.AnnAssign) and isinstance(st.target, ast.Name) and st.target.id == it.id)]
+        stores = [n for n in ast.walk(tree) if isinstance(n, ast.Name) and n.id == it.id and isinstance(n.ctx, ast.Store)]
+        if len(binds) != 1 or len(stores) != 1 or binds[0].value is None:
+            fail(lp, "separator constant must be bound exactly once at module level")
+        it = binds[0].value
+    if not (isinstance(lp.target, ast.Name) and isinstance(it, (ast.Tuple, ast.List))):
         fail(lp, "separator loop shape")
     out = []
-    for e in lp.iter.elts:
+    for e in it.elts:
         if not (isinstance(e, ast.Constant) and e.value in DELIMS):
             fail(e, "unknown separator")
         out.append(DELIMS[e.value])
@@ -173,7 +225,280 @@ def _delims(repo: Path) -> list[str]:
     return out
 
 
-def render(names, align, memo, maxsize, key, delims) -> str:
+STATE_FILES = ("pyxel/inputs/loader.py", "pyxel/util/image.py", "pyxel/models/photon_collection/load_image.py",
+               "pyxel/models/charge_generation/load_charge.py")
+CONTAINER_CALLS = {"dict", "list", "set", "OrderedDict", "defaultdict", "WeakValueDictionary", "deque", "Counter",
+                   "collections.OrderedDict", "collections.defaultdict", "collections.deque",
+                   "weakref.WeakValueDictionary", "LRUCache", "TTLCache"}
+MUTATORS = {"pop", "popitem", "update", "setdefault", "append", "add", "clear", "insert", "extend", "remove",
+            "discard", "move_to_end", "appendleft", "__setitem__", "__delitem__"}
+# decorators that do not keep results (anything else on a function of these files fails closed)
+PLAIN_DECORATORS = {"staticmethod", "classmethod", "property", "overload", "typing.overload", "deprecated",
+                    "typing.no_type_check", "no_type_check"}
+
+
+def _is_container(v: ast.AST) -> bool:
+    if isinstance(v, (ast.Dict, ast.List, ast.Set, ast.DictComp, ast.ListComp, ast.SetComp)):
+        return True
+    return isinstance(v, ast.Call) and ast.unparse(v.func) in CONTAINER_CALLS
+
+
+def _state(repo: Path) -> list[str]:
+    """Names of everything that could carry loaded content from one call to the next."""
+    found: list[str] = []
+    for rel in STATE_FILES:
+        tree = parse(repo, rel)
+        short = rel.rsplit("/", 1)[1][:-3]
+        module_containers, func_names = set(), set()
+        for st in tree.body:
+            tgt = None
+            if isinstance(st, ast.Assign) and len(st.targets) == 1 and isinstance(st.targets[0], ast.Name):
+                tgt, val = st.targets[0].id, st.value
+            elif isinstance(st, ast.AnnAssign) and isinstance(st.target, ast.Name) and st.value is not None:
+                tgt, val = st.target.id, st.value
+            if tgt is not None and _is_container(val):
+                module_containers.add(tgt)
+            if isinstance(st, (ast.FunctionDef, ast.AsyncFunctionDef)):
+                func_names.add(st.name)
+        for fn in [n for n in ast.walk(tree) if isinstance(n, (ast.FunctionDef, ast.AsyncFunctionDef))]:
+            if fn.name == "load_cropped_and_aligned_image" and short == "image":
+                decos = []                               # read by _memo (src_memoised)
+            else:
+                decos = fn.decorator_list
+            for d in decos:
+                name = ast.unparse(d.func if isinstance(d, ast.Call) else d)
+                if "cache" in name.lower() or "memo" in name.lower():
+                    found.append(f"{short}.{fn.name}@{name}")
+                elif name not in PLAIN_DECORATORS:
+                    fail(d, f"decorator on {fn.name} not accepted")
+            for dflt in list(fn.args.defaults) + [x for x in fn.args.kw_defaults if x is not None]:
+                if _is_container(dflt):
+                    found.append(f"{short}.{fn.name}(mutable default)")
+            for n in ast.walk(fn):
+                if isinstance(n, ast.Global):
+                    found += [f"{short}.{g} (global in {fn.name})" for g in n.names]
+                tgts = []
+                if isinstance(n, ast.Assign):
+                    tgts = n.targets
+                elif isinstance(n, (ast.AugAssign, ast.AnnAssign)):
+                    tgts = [n.target]
+                elif isinstance(n, ast.Delete):
+                    tgts = n.targets
+                for t in tgts:
+                    if isinstance(t, ast.Subscript) and isinstance(t.value, ast.Name) and t.value.id in module_containers:
+                        found.append(f"{short}.{t.value.id} (stored in {fn.name})")
+                    if isinstance(t, ast.Attribute) and isinstance(t.value, ast.Name) and t.value.id in func_names:
+                        found.append(f"{short}.{t.value.id}.{t.attr} (function attribute set in {fn.name})")
+                if (isinstance(n, ast.Call) and isinstance(n.func, ast.Attribute) and n.func.attr in MUTATORS
+                        and isinstance(n.func.value, ast.Name) and n.func.value.id in module_containers):
+                    found.append(f"{short}.{n.func.value.id} (.{n.func.attr} in {fn.name})")
+    out = []
+    for f in found:
+        if f not in out:
+            out.append(f)
+    for f in out:
+        if not all(32 <= ord(c) < 127 and c != '"' for c in f):
+            fail(None, "state name not printable")
+    return out
+
+
+LCAI_PARAMS = ["shape", "filename", "position_x", "position_y", "align", "allow_smaller_array"]
+
+
+def _attr_chain(node) -> str | None:
+    parts = []
+    while isinstance(node, ast.Attribute):
+        parts.append(node.attr)
+        node = node.value
+    if isinstance(node, ast.Name):
+        parts.append(node.id)
+        return ".".join(reversed(parts))
+    return None
+
+
+def _model_call(repo: Path, rel: str, fname: str, file_param: str, sink: str) -> dict:
+    """Straight-line reading of a loading model: bindings, the one call of load_cropped_and_aligned_image, the
+    scaling of its result, the sink.  `if <flag parameter whose default is False/None>:` blocks are skipped (the
+    model is read for its default flags); anything else fails closed."""
+    tree = parse(repo, rel)
+    fn = find_func(tree, fname)
+    params = [a.arg for a in fn.args.args + fn.args.kwonlyargs]
+    defaults = {}
+    pos_defaults = fn.args.defaults
+    for a, d in zip(fn.args.args[len(fn.args.args) - len(pos_defaults):], pos_defaults):
+        defaults[a.arg] = d
+    for a, d in zip(fn.args.kwonlyargs, fn.args.kw_defaults):
+        if d is not None:
+            defaults[a.arg] = d
+    for need in ("detector", file_param, "position", "align", "time_scale"):
+        if need not in params:
+            fail(fn, f"{fname}: parameter {need!r} missing")
+    alias = {}            # name -> attribute chain it stands for (geo = detector.geometry)
+    unpack = {}           # name -> index into `position`
+    shape_of = {}         # name -> (GRow|GCol, GRow|GCol)
+    mono = {}             # name -> (is_image, (e_step, e_scale, e_mult))
+    call = None
+    sunk = None
+
+    def chain(node):
+        c = _attr_chain(node)
+        if c is None:
+            return None
+        head, _, rest = c.partition(".")
+        if head in alias:
+            c = alias[head] + ("." + rest if rest else "")
+        return c
+
+    def shape_expr(node):
+        if isinstance(node, ast.Name) and node.id in shape_of:
+            return shape_of[node.id]
+        if isinstance(node, ast.Tuple) and len(node.elts) == 2:
+            out = []
+            for e in node.elts:
+                c = chain(e)
+                if c == "detector.geometry.row":
+                    out.append("GRow")
+                elif c == "detector.geometry.col":
+                    out.append("GCol")
+                else:
+                    fail(e, "shape component must be detector.geometry.row / .col")
+            return tuple(out)
+        fail(node, "shape argument shape")
+
+    def pos_expr(node):
+        if isinstance(node, ast.Name) and node.id in unpack:
+            return unpack[node.id]
+        if (isinstance(node, ast.Subscript) and isinstance(node.value, ast.Name) and node.value.id == "position"
+                and isinstance(node.slice, ast.Constant) and node.slice.value in (0, 1)):
+            return node.slice.value
+        fail(node, "position argument must be a component of `position`")
+
+    def monomial(node):
+        """(is_image, exponents) of a product / quotient expression."""
+        if isinstance(node, ast.Name):
+            if node.id in mono:
+                return mono[node.id]
+            if node.id == "time_scale":
+                return (0, (0, 1, 0))
+            if node.id == "multiplier" and "multiplier" in params:
+                return (0, (0, 0, 1))
+            fail(node, "unknown factor")
+        if chain(node) == "detector.time_step":
+            return (0, (1, 0, 0))
+        if isinstance(node, ast.Constant) and node.value in (1, 1.0) and not isinstance(node.value, bool):
+            return (0, (0, 0, 0))
+        if isinstance(node, ast.BinOp) and isinstance(node.op, (ast.Mult, ast.Div)):
+            (ia, ea), (ib, eb) = monomial(node.left), monomial(node.right)
+            sg = 1 if isinstance(node.op, ast.Mult) else -1
+            return (ia + sg * ib, tuple(x + sg * y for x, y in zip(ea, eb)))
+        fail(node, "scaling expression shape")
+
+    def is_lcai(node):
+        return isinstance(node, ast.Call) and ast.unparse(node.func) == "load_cropped_and_aligned_image"
+
+    for st in body_no_doc(fn):
+        if isinstance(st, ast.If):
+            t = st.test
+            flag = t.id if isinstance(t, ast.Name) else None
+            d = defaults.get(flag)
+            if flag in params and isinstance(d, ast.Constant) and d.value in (False, None) and not st.orelse:
+                continue                                   # an optional feature, off by default
+            fail(st, "conditional not accepted")
+        if isinstance(st, ast.AnnAssign) and st.value is not None and isinstance(st.target, ast.Name):
+            st = ast.Assign(targets=[st.target], value=st.value, lineno=st.lineno)
+        if isinstance(st, ast.Assign) and len(st.targets) == 1:
+            tgt, val = st.targets[0], st.value
+            if isinstance(tgt, ast.Tuple) and isinstance(val, ast.Name) and val.id == "position" \
+                    and len(tgt.elts) == 2 and all(isinstance(e, ast.Name) for e in tgt.elts):
+                for k, e in enumerate(tgt.elts):
+                    unpack[e.id] = k
+                continue
+            if isinstance(tgt, ast.Name):
+                new_alias = new_shape = new_mono = None
+                if is_lcai(val):
+                    if call is not None:
+                        fail(val, "second call of load_cropped_and_aligned_image")
+                    call = val
+                    new_mono = (1, (0, 0, 0))
+                else:
+                    c = chain(val)
+                    if c is not None and c.startswith("detector") and c != "detector.time_step":
+                        new_alias = c
+                    elif isinstance(val, ast.Tuple):
+                        new_shape = shape_expr(val)
+                    else:
+                        new_mono = monomial(val)
+                for dct in (alias, unpack, shape_of, mono):
+                    dct.pop(tgt.id, None)
+                if new_alias is not None:
+                    alias[tgt.id] = new_alias
+                if new_shape is not None:
+                    shape_of[tgt.id] = new_shape
+                if new_mono is not None:
+                    mono[tgt.id] = new_mono
+                continue
+            fail(st, "assignment shape")
+        if sink == "photon" and isinstance(st, ast.AugAssign) and isinstance(st.op, ast.Add) \
+                and chain(st.target) == "detector.photon":
+            if sunk is not None:
+                fail(st, "second sink")
+            sunk = monomial(st.value)
+            continue
+        if sink == "charge" and isinstance(st, ast.Expr) and isinstance(st.value, ast.Call) \
+                and chain(st.value.func) == "detector.charge.add_charge_array" and len(st.value.args) == 1:
+            if sunk is not None:
+                fail(st, "second sink")
+            sunk = monomial(st.value.args[0])
+            continue
+        fail(st, f"{fname}: statement not accepted")
+    if call is None or sunk is None:
+        fail(fn, f"{fname}: call of load_cropped_and_aligned_image or sink not found")
+    args = {}
+    if len(call.args) > len(LCAI_PARAMS):
+        fail(call, "too many positional arguments")
+    for name, a in zip(LCAI_PARAMS, call.args):
+        args[name] = a
+    for kw in call.keywords:
+        if kw.arg not in LCAI_PARAMS or kw.arg in args:
+            fail(call, "keyword of load_cropped_and_aligned_image")
+        args[kw.arg] = kw.value
+    for need in ("shape", "filename"):
+        if need not in args:
+            fail(call, f"argument {need} missing")
+    out = dict(shape=shape_expr(args["shape"]))
+    out["file"] = isinstance(args["filename"], ast.Name) and args["filename"].id == file_param
+    out["py"] = pos_expr(args["position_y"]) if "position_y" in args else None
+    out["px"] = pos_expr(args["position_x"]) if "position_x" in args else None
+    if out["py"] is None or out["px"] is None:
+        fail(call, "position_x / position_y must be passed")
+    out["align"] = "align" in args and isinstance(args["align"], ast.Name) and args["align"].id == "align"
+    allow = args.get("allow_smaller_array")
+    if allow is None:
+        out["allow"] = True
+    elif isinstance(allow, ast.Constant) and isinstance(allow.value, bool):
+        out["allow"] = allow.value
+    else:
+        fail(allow, "allow_smaller_array must be a literal")
+    if sunk[0] != 1:
+        fail(fn, "the array added to the bucket must be the loaded image times a factor")
+    out["factor"] = sunk[1]
+    out["adds"] = True
+    return out
+
+
+def _render_call(name: str, c: dict) -> str:
+    b = lambda x: "true" if x else "false"
+    return (f"Definition {name} : model_call :=\n"
+            f"  {{| mc_shape := ({c['shape'][0]}, {c['shape'][1]}); mc_py := {c['py']}%nat; mc_px := {c['px']}%nat;\n"
+            f"     mc_file := {b(c['file'])}; mc_align := {b(c['align'])}; mc_allow := {b(c['allow'])};\n"
+            f"     mc_factor := (({c['factor'][0]}), ({c['factor'][1]}), ({c['factor'][2]})); mc_adds := {b(c['adds'])} |}}.\n")
+
+
+PHOTON_CALL = dict(shape=("GRow", "GCol"), py=0, px=1, file=True, align=True, allow=True, factor=(1, -1, 1), adds=True)
+CHARGE_CALL = dict(shape=("GRow", "GCol"), py=0, px=1, file=True, align=True, allow=True, factor=(1, -1, 0), adds=True)
+
+
+def render(names, align, memo, maxsize, key, delims, state=(), photon=PHOTON_CALL, charge=CHARGE_CALL) -> str:
     nm = "; ".join('("%s"%%string, %s)' % (s.replace('"', '""'), m) for s, m in names)
     br = "\n".join(f"  | {m} => ({align[m][0]}, {align[m][1]})" for m in MEMBERS.values())
     return (PRELUDE +
@@ -183,7 +508,9 @@ def render(names, align, memo, maxsize, key, delims) -> str:
             f"Definition src_memoised : bool := {'true' if memo else 'false'}.\n"
             f"Definition src_memo_maxsize : nat := {maxsize}%nat.\n"
             f"Definition src_memo_key : list key_field := [{'; '.join(key)}].\n"
-            f"Definition src_delims : list delim := [{'; '.join(delims)}].\n")
+            f"Definition src_delims : list delim := [{'; '.join(delims)}].\n"
+            "Definition src_loader_state : list string := [" + "; ".join('"%s"%%string' % x for x in state) + "].\n"
+            + _render_call("src_photon_call", photon) + _render_call("src_charge_call", charge))
 
 
 def translate(repo: Path) -> str:
@@ -195,7 +522,9 @@ def translate(repo: Path) -> str:
     align = _align(tree)
     memo, maxsize, key = _memo(tree)
     delims = _delims(repo)
-    return render(names, align, memo, maxsize, key, delims)
+    photon = _model_call(repo, "pyxel/models/photon_collection/load_image.py", "load_image", "image_file", "photon")
+    charge = _model_call(repo, "pyxel/models/charge_generation/load_charge.py", "load_charge", "filename", "charge")
+    return render(names, align, memo, maxsize, key, delims, _state(repo), photon, charge)
 
 
 # the last accepted shape (unchanged tree); keeps a model available for the failing-input search
@@ -204,5 +533,5 @@ FALLBACK = render(
      ("bottom_left", "BottomLeft"), ("bottom_right", "BottomRight")],
     {"Center": ("(Z.quot (oy - ay) 2)", "(Z.quot (ox - ax) 2)"), "TopLeft": ("(oy - ay)", "(0)"),
      "TopRight": ("(oy - ay)", "(ox - ax)"), "BottomLeft": ("(0)", "(0)"), "BottomRight": ("(0)", "(ox - ax)")},
-    True, 128, ["KShape", "KFile", "KPosX", "KPosY", "KAlign", "KAllow"],
+    False, 0, ["KShape", "KFile", "KPosX", "KPosY", "KAlign", "KAllow"],
     ["DTab", "DSpace", "DComma", "DBar", "DSemicolon"])
